@@ -33,12 +33,12 @@ import (
 func main() {
 	hk.Main(&hk.Component{Name: "ctx",
 		Rule: "per server kind (Streamable stateful / stateless / sessions off, legacy SSE) several servers with 2-3 random context functions " +
-			"(header read, key bound, key looked at; the last one binds the role key, an earlier one may bind it too and is overridden), 1-3 observing middlewares, " +
+			"(header read, key bound, key looked at; the last one binds the role key, an earlier one may bind it too and is overridden), 0-10 observing middlewares (registered by one variadic option or one by one), " +
 			"role filters on tools / prompts / resources in three styles (allocating; compacting their input in place; sorting it in place first); 12+ raw clients " +
 			"(own session each, two sharing one; half of them only list, with alternating roles) and 3 library clients per server issue " +
 			"list / call / get / read / ping / notification requests concurrently, every request with its own token in three headers and a role; every fourth request " +
 			"lingers 0.3 ms in the outermost middleware after next() returned; then an in-process phase without network: 8 (thorough 16) goroutines, " +
-			"each bound to its own session, call Handler().ServeHTTP back to back for 1.5 s (thorough 5 s) per server kind (stateful, stateless, legacy SSE) with " +
+			"each bound to its own session, call Handler().ServeHTTP back to back against one fresh server per kind (stateful, stateless; legacy SSE: a few), middleware count 0..10 and registration style, 120 ms each (thorough 400 ms), with " +
 			"GOMAXPROCS >= 8, every stage checking lock-free that session / client session / sender / context-function values are its own request's; " +
 			"a case is non-trivial when the request was answered and every expected stage recorded its context",
 		Run: run})
@@ -588,6 +588,10 @@ func (s *server) judge(c *hk.Ctx, r *result) (tempSid string, complete bool) {
 	}
 	// registration order of the context functions (Streamable: all of them; legacy SSE: the single effective one sees nothing)
 	eff := s.effective()
+	if len(r.obs) == 0 {
+		// a ping on a server without middlewares: no stage of ours sees the request
+		return tempSid, complete
+	}
 	last := r.obs[len(r.obs)-1]
 	for i, f := range eff {
 		overridden := false
@@ -746,7 +750,7 @@ type worker func(start <-chan struct{}, out chan<- *result)
 
 func runServer(c *hk.Ctx, kind, name, style string, nRaw, perRaw, nReal, perReal int) error {
 	roleKey := []int{10, 11, 12}[c.Rng.Intn(3)]
-	s, err := newServer(kind, name, genFns(c, roleKey), 1+c.Rng.Intn(3), roleKey, style)
+	s, err := newServer(kind, name, genFns(c, roleKey), c.Rng.Intn(11), roleKey, style, c.Rng.Intn(2) == 0)
 	if err != nil {
 		return err
 	}
